@@ -150,11 +150,73 @@ def comment_kind(c):
     return '--'
 
 
+def cli_batch(res):
+    """Header shapes through `p8tool luamin` on .p8 and .p8.png carts: the written cart starts with the two comments."""
+    import os
+    import shutil
+    import tempfile
+    from pico8 import tool
+    from pico8.game import file as p8file
+    from lib import carts
+    d = tempfile.mkdtemp(prefix='c19_')
+    try:
+        shapes = [(['--', '\n', '--', '\n'], 'next-line'), (['//', '\n', ' ', '//'], 'next-line'), (['blk', '\n', '--'], 'next-line'),
+                  (['\n', '--', '\n', '\t', '--', '\n', '--'], 'next-line'), (['--', '\r\n', '--'], 'next-line'),
+                  (['blk2', '\n', '//'], 'next-line'), (['--'], 'next-line'), ([], 'same-line'), (['blk', 'blk'], 'same-line')]
+        for n, (seq, fol) in enumerate(shapes):
+            src = header_source(seq, fol, BODIES[n % 3])
+            for ext in ('.p8', '.p8.png'):
+                res.evaluations += 1
+                case = {'src': src, 'seq': list(seq), 'follower': fol, 'cli': ext}
+                try:
+                    intoks = reflex.lex(src)
+                    obj, want = c01.minify(src.replace(b'\r', b' ') if ext == '.p8.png' else src, 'default')
+                except Exception:
+                    continue
+                res.nontriv(('cli', src, ext))
+                inp = os.path.join(d, 'h%d%s' % (n, ext))
+                p8file.to_file(carts.make_game({}, version=33, code_lines=[src]), inp)
+                try:
+                    rc_ = tool.main(['luamin', inp])
+                    got = b''.join(p8file.from_file(os.path.join(d, 'h%d_fmt%s' % (n, ext))).lua.to_lines())
+                except Exception as e:
+                    res.violation('C19|cli|raise|%s' % type(e).__name__, 'p8tool luamin on %r raised %r' % (src, e), case)
+                    continue
+                lead = [t.text for t in intoks if t.kind == 'comment'][:0]
+                lead = []
+                for t in intoks:
+                    if t.kind == 'comment':
+                        lead.append(t.text)
+                    elif t.kind not in ('space', 'newline'):
+                        break
+                k = 0
+                try:
+                    outtoks = reflex.lex(got)
+                except reflex.Reject:
+                    res.violation('C19|cli|unlexable|%s' % ext, 'p8tool luamin wrote %r for %r' % (got, src), case)
+                    continue
+                ok = True
+                for w in lead[:2]:
+                    w2 = w.replace(b'\r', b' ') if ext == '.p8.png' else w
+                    if not (k < len(outtoks) and outtoks[k].kind == 'comment' and outtoks[k].text.rstrip() == w2.rstrip() and
+                            (k + 1 >= len(outtoks) or outtoks[k + 1].kind == 'newline')):
+                        res.violation('C19|cli|header-comment|%s' % ext,
+                                      'p8tool luamin on a %s cart with code %r wrote %r: header comment %r is not at the top on its '
+                                      'own line' % (ext, src, got, w), case)
+                        ok = False
+                        break
+                    k += 2
+                if ok:
+                    res.outcome(('cli', ext, len(lead[:2])))
+    finally:
+        shutil.rmtree(d, ignore_errors=True)
+
+
 def shards(tier, seed):
     total = count_seqs(BOUNDS[tier]['items'], len(ITEMS))
     n = 32 if tier == 'quick' else 128
     step = (total + n - 1) // n
-    return [('hdr', tier, lo, min(total, lo + step)) for lo in range(0, total, step)]
+    return [('hdr', tier, lo, min(total, lo + step)) for lo in range(0, total, step)] + [('cli',)]
 
 
 FOLLOWERS = ['nothing', 'same-line', 'next-line']
@@ -162,6 +224,10 @@ FOLLOWERS = ['nothing', 'same-line', 'next-line']
 
 def run_shard(item):
     res = ShardResult()
+    if item[0] == 'cli':
+        cli_batch(res)
+        res.sample({'cli': 'p8tool luamin on .p8 and .p8.png carts with 9 header shapes'})
+        return res
     _, tier, lo, hi = item
     for idx in range(lo, hi):
         seq = nth_seq(idx, len(ITEMS))
@@ -178,6 +244,9 @@ def finalize(total):
 
 def replay(case):
     res = ShardResult()
+    if case.get('cli'):
+        cli_batch(res)
+        return [(s, v[0]) for s, v in res.violations.items()]
     src = case['src']
     seq = case['seq']
     for body in BODIES:
